@@ -150,6 +150,15 @@ impl<T: RecognizerReadable> Decoder for ReconDecoder<T> {
     fn decode(&mut self, src: &mut bytes::BytesMut) -> Result<Option<Self::Item>, Self::Error> {
         self.decoder.decode(src)
     }
+
+    // Without this the default `decode_eof` would call `decode`, which (rightly) waits for more input when a
+    // top-level token reaches the end of the buffer; the inner decoder knows how to finish at the end of input.
+    fn decode_eof(
+        &mut self,
+        src: &mut bytes::BytesMut,
+    ) -> Result<Option<Self::Item>, Self::Error> {
+        self.decoder.decode_eof(src)
+    }
 }
 
 impl<T: RecognizerReadable> ReconDecoder<T> {
